@@ -18,6 +18,7 @@ import (
 	"fmt"
 	"math"
 	"reflect"
+	"runtime/debug"
 
 	"gopkg.in/typ.v4/avl"
 	"verif/harness/avlh"
@@ -25,9 +26,26 @@ import (
 )
 
 type Case struct {
-	Elem string    `json:"elem"` // int | pair (compared with the model) | counted | weird (natural / arbitrary comparator with a call counter, oracle only)
-	Seed int       `json:"seed,omitempty"`
-	Ops  []avlh.Op `json:"ops"`
+	Elem string `json:"elem"` // int | pair (compared with the model) | counted | weird (natural / arbitrary comparator with a call counter, oracle only)
+	Seed int    `json:"seed,omitempty"`
+	// Dense = [from,to): the oracle runs after EVERY mutating op in that window whatever the tree size and
+	// after every 16th outside it (without Dense: every op up to 300 nodes, every 16th above).
+	// NoModel: oracle only, not emitted to Coq.
+	Dense   []int     `json:"dense,omitempty"`
+	NoModel bool      `json:"nomodel,omitempty"`
+	Ops     []avlh.Op `json:"ops"`
+}
+
+// check: does the oracle run after mutating op #i on a tree of n nodes? With a Dense window: every op
+// inside it, every 16th outside; without: every op up to 300 nodes, every 16th above; always the last 8.
+func (cs Case) check(i, n int) bool {
+	if i%16 == 0 || i >= len(cs.Ops)-8 {
+		return true
+	}
+	if len(cs.Dense) == 2 {
+		return i >= cs.Dense[0] && i < cs.Dense[1]
+	}
+	return n <= 300
 }
 
 func init() {
@@ -46,128 +64,163 @@ func replay(c *core.Ctx, raw json.RawMessage) error {
 // ---------------------------------------------------------------------------
 // shape of a tree and the property oracle
 
-type shape struct {
-	v      int
-	l, r   *shape
-	cached int
-	hasC   bool
+// verdict is what the oracle establishes about one tree.
+type verdict struct {
+	height, size int
+	bad          string // first node found with |height(left)-height(right)| > 1
+	postBad      bool   // the post-order walk is not the post-order of the tree given by pre+in
+	cacheWrong   int    // nodes whose cached height field is not the real height (reflection only)
 }
 
-// fromPreIn rebuilds the unique binary tree with the given pre-order and
-// in-order sequences (values must be distinct).
-func fromPreIn(pre, in []int) (*shape, bool) {
+// position index for fromPreIn, reused across calls (values in [0,posLimit) use the stamped slices)
+const posLimit = 1 << 16
+
+var (
+	posIdx [posLimit]int32
+	posGen [posLimit]uint32
+	posCur uint32
+)
+
+// analysePreIn rebuilds, without materialising it, the unique binary tree with the given pre-order and
+// in-order sequences and measures it. ok = false if the values are not distinct (the two walks then do not
+// determine the tree) or the walks are inconsistent.
+func analysePreIn(pre, in, post []int) (v verdict, ok bool) {
 	if len(pre) != len(in) {
-		return nil, false
+		return v, false
 	}
-	pos := make(map[int]int, len(in))
-	for i, v := range in {
-		pos[v] = i
+	posCur++
+	if posCur == 0 {
+		posGen = [posLimit]uint32{}
+		posCur = 1
 	}
-	if len(pos) != len(in) {
-		return nil, false
+	var big map[int]int32
+	for i, x := range in {
+		if x >= 0 && x < posLimit {
+			if posGen[x] == posCur {
+				return v, false // duplicate
+			}
+			posGen[x], posIdx[x] = posCur, int32(i)
+		} else {
+			if big == nil {
+				big = map[int]int32{}
+			}
+			if _, dup := big[x]; dup {
+				return v, false
+			}
+			big[x] = int32(i)
+		}
 	}
-	next := 0
-	ok := true
-	var build func(lo, hi int) *shape
-	build = func(lo, hi int) *shape {
+	lookup := func(x int) (int, bool) {
+		if x >= 0 && x < posLimit {
+			return int(posIdx[x]), posGen[x] == posCur
+		}
+		p, found := big[x]
+		return int(p), found
+	}
+	next, pk := 0, 0
+	ok = true
+	var rec func(lo, hi int) int
+	rec = func(lo, hi int) int {
 		if lo >= hi || !ok {
-			return nil
+			return -1
 		}
 		if next >= len(pre) {
 			ok = false
-			return nil
+			return -1
 		}
-		v := pre[next]
-		p, found := pos[v]
+		x := pre[next]
+		p, found := lookup(x)
 		if !found || p < lo || p >= hi {
 			ok = false
-			return nil
+			return -1
 		}
 		next++
-		n := &shape{v: v}
-		n.l = build(lo, p)
-		n.r = build(p+1, hi)
-		return n
+		hl := rec(lo, p)
+		hr := rec(p+1, hi)
+		if pk >= len(post) || post[pk] != x {
+			v.postBad = true
+		}
+		pk++
+		if v.bad == "" && (hl-hr > 1 || hr-hl > 1) {
+			v.bad = fmt.Sprintf("node %d: left subtree height %d, right subtree height %d", x, hl, hr)
+		}
+		v.size++
+		return 1 + max(hl, hr)
 	}
-	t := build(0, len(in))
-	return t, ok && next == len(pre)
+	v.height = rec(0, len(in))
+	if pk != len(post) {
+		v.postBad = true
+	}
+	return v, ok && next == len(pre)
 }
 
-// fromReflect reads the node structure of an *avl.Tree[int] / *avl.Tree[Pair].
-func fromReflect(tree any) (s *shape, ok bool) {
+// analyseReflect reads the node structure of an *avl.Tree[int] / *avl.Tree[Pair] by reflection, measures it
+// and checks that it reproduces the three walks (ok = false otherwise, or if the fields cannot be read).
+func analyseReflect(tree any, pre, in, post []int) (v verdict, ok bool) {
 	defer func() {
 		if recover() != nil {
-			s, ok = nil, false
+			ok = false
 		}
 	}()
 	rv := reflect.ValueOf(tree)
 	if rv.Kind() != reflect.Ptr || rv.IsNil() {
-		return nil, false
+		return v, false
 	}
 	root := rv.Elem().FieldByName("root")
 	if !root.IsValid() {
-		return nil, false
+		return v, false
 	}
-	var walk func(p reflect.Value) *shape
-	walk = func(p reflect.Value) *shape {
+	nt := root.Type().Elem() // node[T]
+	fv, ok1 := nt.FieldByName("value")
+	fl, ok2 := nt.FieldByName("left")
+	fr, ok3 := nt.FieldByName("right")
+	fh, ok4 := nt.FieldByName("height")
+	if !(ok1 && ok2 && ok3 && ok4) {
+		return v, false
+	}
+	iv, il, ir, ih := fv.Index[0], fl.Index[0], fr.Index[0], fh.Index[0]
+	isStruct := fv.Type.Kind() == reflect.Struct
+	pi, ii, oi := 0, 0, 0
+	match := true
+	var walk func(p reflect.Value) int
+	walk = func(p reflect.Value) int {
 		if p.IsNil() {
-			return nil
+			return -1
 		}
 		n := p.Elem()
-		val := n.FieldByName("value")
-		var v int
-		if val.Kind() == reflect.Struct {
-			v = int(val.Field(0).Int())<<2 | int(val.Field(1).Int())
+		val := n.Field(iv)
+		var x int
+		if isStruct {
+			x = int(val.Field(0).Int())<<2 | int(val.Field(1).Int())
 		} else {
-			v = int(val.Int())
+			x = int(val.Int())
 		}
-		s := &shape{v: v, cached: int(n.FieldByName("height").Int()), hasC: true}
-		s.l = walk(n.FieldByName("left"))
-		s.r = walk(n.FieldByName("right"))
-		return s
-	}
-	return walk(root), true
-}
-
-func (s *shape) walks() (pre, in, post []int) {
-	var rec func(n *shape)
-	rec = func(n *shape) {
-		if n == nil {
-			return
+		if pi >= len(pre) || pre[pi] != x {
+			match = false
 		}
-		pre = append(pre, n.v)
-		rec(n.l)
-		in = append(in, n.v)
-		rec(n.r)
-		post = append(post, n.v)
+		pi++
+		hl := walk(n.Field(il))
+		if ii >= len(in) || in[ii] != x {
+			match = false
+		}
+		ii++
+		hr := walk(n.Field(ir))
+		if oi >= len(post) || post[oi] != x {
+			match = false
+		}
+		oi++
+		h := 1 + max(hl, hr)
+		if int(n.Field(ih).Int()) != h {
+			v.cacheWrong++
+		}
+		if v.bad == "" && (hl-hr > 1 || hr-hl > 1) {
+			v.bad = fmt.Sprintf("node %d: left subtree height %d, right subtree height %d", x, hl, hr)
+		}
+		v.size++
+		return h
 	}
-	rec(s)
-	return
-}
-
-// balanced returns the height (empty = -1, leaf = 0), the number of nodes and
-// a description of the first node violating |height(left)-height(right)| <= 1.
-func balanced(s *shape) (height, size int, bad string, cacheWrong int) {
-	if s == nil {
-		return -1, 0, "", 0
-	}
-	hl, sl, bl, cl := balanced(s.l)
-	hr, sr, br, cr := balanced(s.r)
-	height = 1 + max(hl, hr)
-	size = sl + sr + 1
-	cacheWrong = cl + cr
-	if s.hasC && s.cached != height {
-		cacheWrong++
-	}
-	switch {
-	case bl != "":
-		bad = bl
-	case br != "":
-		bad = br
-	case hl-hr > 1 || hr-hl > 1:
-		bad = fmt.Sprintf("node %d: left subtree height %d, right subtree height %d", s.v, hl, hr)
-	}
-	return
+	v.height = walk(root)
+	return v, match && pi == len(pre) && ii == len(in) && oi == len(post)
 }
 
 func max(a, b int) int {
@@ -178,9 +231,31 @@ func max(a, b int) int {
 }
 
 // oracle checks the property on the tree behind handle h. step is for messages.
-func oracle(c *core.Ctx, failed *bool, ts avlh.Trees, h int, step int, op avlh.Op) {
-	pre, in, post, _ := avlh.Walks(ts, h)
+// It returns the pre-order walk it used.
+func oracle(c *core.Ctx, failed *bool, ts avlh.Trees, h int, step int, op avlh.Op) []int {
+	pre, in, post := walksOf(ts.Root(h))
 	checkWalks(c, failed, pre, in, post, ts.Root(h), step, op)
+	return pre
+}
+
+// walksOf: the callback sequences of the three Walk* methods (avlh.Walks without the String() formatting).
+func walksOf(root any) (pre, in, post []int) {
+	switch t := root.(type) {
+	case *avl.Tree[int]:
+		n := t.Len()
+		if n < 0 {
+			n = 0
+		}
+		pre, in, post = make([]int, 0, n), make([]int, 0, n), make([]int, 0, n)
+		t.WalkPreOrder(func(v int) { pre = append(pre, v) })
+		t.WalkInOrder(func(v int) { in = append(in, v) })
+		t.WalkPostOrder(func(v int) { post = append(post, v) })
+	case *avl.Tree[avlh.Pair]:
+		t.WalkPreOrder(func(v avlh.Pair) { pre = append(pre, v.A<<2|v.B) })
+		t.WalkInOrder(func(v avlh.Pair) { in = append(in, v.A<<2|v.B) })
+		t.WalkPostOrder(func(v avlh.Pair) { post = append(post, v.A<<2|v.B) })
+	}
+	return
 }
 
 // checkWalks returns the number of levels of the tree, or -1 if its shape could not be established.
@@ -191,35 +266,29 @@ func checkWalks(c *core.Ctx, failed *bool, pre, in, post []int, root any, step i
 			c.Fail(what, fmt.Sprintf("after op #%d (%s h=%d v=%d): %s", step, op.K, op.H, op.V, detail))
 		}
 	}
-	s, ok := fromPreIn(pre, in)
-	how := "prein"
+	v, ok := analysePreIn(pre, in, post)
+	how := "oracle_prein"
 	if !ok {
 		// duplicate values: pre+in do not determine the tree; read the nodes and check them against the walks
-		how = "reflect"
-		s, ok = fromReflect(root)
-		if ok {
-			p2, i2, o2 := s.walks()
-			ok = core.Eq(p2, pre) && core.Eq(i2, in) && core.Eq(o2, post)
-		}
-		if !ok {
+		how = "oracle_reflect"
+		if v, ok = analyseReflect(root, pre, in, post); !ok {
 			c.Count("oracle_skipped_shape_unknown")
 			return -1
 		}
 	} else {
-		_, _, o2 := s.walks()
-		if !core.Eq(o2, post) {
-			fail("post-order walk is not the post-order of the tree given by pre-order and in-order", fmt.Sprint(post))
+		if v.postBad {
+			fail("post-order walk is not the post-order of the tree given by pre-order and in-order", fmt.Sprint(clip(post)))
 			return -1
 		}
-		if r, ok2 := fromReflect(root); ok2 {
+		if len(pre) <= 64 || step%16 == 0 {
 			// the cached height fields, as a statistic only (not part of the property)
-			if _, _, _, cw := balanced(r); cw > 0 {
+			if r, ok2 := analyseReflect(root, pre, in, post); ok2 && r.cacheWrong > 0 {
 				c.Count("cached_height_fields_wrong")
 			}
 		}
 	}
-	c.Count("oracle_" + how)
-	height, n, bad, _ := balanced(s)
+	c.Count(how)
+	height, n, bad := v.height, v.size, v.bad
 	if bad != "" {
 		fail("tree is not height-balanced", fmt.Sprintf("%s (n=%d, height=%d, pre=%v in=%v)", bad, n, height, clip(pre), clip(in)))
 		return height + 1
@@ -431,7 +500,7 @@ func (m *mirror) twoChildNode(h int, r *core.Rand) (int, bool) {
 	if n == nil || n.l == nil || n.r == nil {
 		return 0, false
 	}
-	for r.Chance(50) {
+	for r.Chance(65) {
 		var nx *mnode
 		if r.Bool() {
 			nx = n.l
@@ -536,20 +605,24 @@ func exec(c *core.Ctx, cs Case) {
 			maxSize = n
 		}
 		// every mutation on small and medium trees; every 16th and the last on big ones
-		if n <= 300 || i%16 == 0 || i >= len(cs.Ops)-8 {
+		if cs.check(i, n) {
 			before := c.Stats["oracle_reflect"]
-			oracle(c, &failed, ts, h, i, o)
+			pre := oracle(c, &failed, ts, h, i, o)
 			if c.Stats["oracle_reflect"] != before {
 				dup = true
 			}
 			var mp []int
 			mpre(m.roots[h], &mp)
-			if pre, _, _, _ := avlh.Walks(ts, h); !core.Eq(pre, mp) {
+			if !core.Eq(pre, mp) {
 				c.Count("mirror_shape_differs")
 			}
 		}
 	}
 	classify(c, m, maxSize, dup)
+	if cs.NoModel {
+		c.Count("oracle_only_cases")
+		return
+	}
 	c.Emit(avlh.CoqCase(cs.Ops, outs))
 }
 
@@ -584,8 +657,10 @@ func classify(c *core.Ctx, m *mirror, maxSize int, dup bool) {
 		c.Count("size_le_64")
 	case maxSize <= 512:
 		c.Count("size_le_512")
+	case maxSize <= 2048:
+		c.Count("size_le_2048")
 	default:
-		c.Count("size_gt_512")
+		c.Count("size_gt_2048")
 	}
 }
 
@@ -657,6 +732,10 @@ func execWeird(c *core.Ctx, cs Case) {
 		if m.sizes[0] > maxSize {
 			maxSize = m.sizes[0]
 		}
+		if !cs.check(i, m.sizes[0]) {
+			levels = -1 // shape not established after this op: no cost check on the next one
+			continue
+		}
 		var pre, in, post []int
 		t.WalkPreOrder(func(v int) { pre = append(pre, v) })
 		t.WalkInOrder(func(v int) { in = append(in, v) })
@@ -664,6 +743,7 @@ func execWeird(c *core.Ctx, cs Case) {
 		levels = checkWalks(c, &failed, pre, in, post, &t, i, o)
 	}
 	classify(c, m, maxSize, false)
+	c.Count("oracle_only_cases")
 	if failed && cs.Elem == "weird" {
 		// the same operations under the natural order, as a case of its own (compared with the model too)
 		exec(c, Case{Elem: "int", Ops: cs.Ops})
@@ -716,6 +796,7 @@ func permutations(n int, f func(p []int)) {
 
 func run(c *core.Ctx) {
 	r := c.Rng
+	debug.SetGCPercent(400)
 	c.ShardSize = 50 // histories are long: small shards keep every coqc run to a few seconds
 
 	// 1. exhaustive: every insertion order of n distinct keys, then every single deletion
@@ -886,6 +967,136 @@ func run(c *core.Ctx) {
 		}
 		cs.Ops = g.ops
 		exec(c, cs)
+	}
+
+	// 7. oracle-heavy, model-sampled: grow to n, churn (oracle after every op), maybe shrink; n up to 4097
+	heavyStream(c)
+}
+
+// heavy builds one "grow to n nodes, churn, maybe shrink" history. The churn window is checked by the
+// oracle after every operation; removals aim at two-children nodes (popLeftMost), the minimum, the root.
+func (g *gen) heavy(r *core.Rand, elem string, n int, model bool) Case {
+	cs := Case{Elem: elem, NoModel: !model}
+	natural := elem == "int" || elem == "pair"
+	if elem == "weird" {
+		cs.Seed = r.Intn(1 << 30)
+		g.m = newMirror(weirdCompare(cs.Seed))
+	}
+	keys := 4*n + 8
+	if r.Chance(20) {
+		keys = n/4 + 2 // many duplicates
+	}
+	style := r.Intn(6)
+	for k := 0; k < n; k++ {
+		var v int
+		switch style {
+		case 0:
+			v = k
+		case 1:
+			v = n - k
+		case 2:
+			if k%2 == 0 {
+				v = k / 2
+			} else {
+				v = n - 1 - k/2
+			}
+		default:
+			v = r.Intn(keys)
+		}
+		g.op("Add", 0, v)
+	}
+	remove := func() {
+		var v int
+		var ok bool
+		switch y := r.Intn(20); {
+		case y < 12:
+			v, ok = g.m.twoChildNode(0, r)
+		case y < 15:
+			v, ok = g.m.min(0)
+		case y < 16:
+			if g.m.roots[0] != nil {
+				v, ok = g.m.roots[0].v, true
+			}
+		case y < 19:
+			v, ok = g.m.randomPresent(0, r)
+		}
+		if !ok {
+			v = r.Intn(keys)
+		}
+		g.op("Remove", 0, v)
+	}
+	from := len(g.ops)
+	if model {
+		g.observe(0, false)
+	}
+	churn := r.Range(120, 320)
+	for k := 0; k < churn; k++ {
+		switch x := r.Intn(100); {
+		case x < 40:
+			g.op("Add", 0, r.Intn(keys))
+		case x < 47 && !natural:
+			g.op("Contains", 0, r.Intn(keys))
+		case x < 42 && natural && len(g.m.roots) < 3 && n <= 1100:
+			g.op("Clone", 0, 0)
+		default:
+			remove()
+		}
+		if model && k%25 == 24 && g.m.sizes[0] <= 300 {
+			g.observe(0, false)
+		}
+	}
+	to := len(g.ops)
+	if r.Chance(35) { // grown, then shrunk
+		target := r.Intn(n/4 + 1)
+		for it := 0; it < 2*n+50 && g.m.sizes[0] > target; it++ {
+			remove()
+		}
+	}
+	if model {
+		g.observe(0, true)
+	}
+	cs.Dense = []int{from, to}
+	cs.Ops = g.ops
+	return cs
+}
+
+// heavyStream: the oracle-heavy, model-sampled stream (see the rule text).
+func heavyStream(c *core.Ctx) {
+	r := c.Rng
+	mult := c.N(1, 5, 2)
+	oracleElem := func() string {
+		if r.Chance(50) {
+			return "weird"
+		}
+		return "counted"
+	}
+	// (a) just below / at / just above powers of two
+	for rep := 0; rep < mult; rep++ {
+		for _, n := range []int{15, 16, 17, 31, 32, 33, 63, 64, 65, 127, 128, 129, 255, 256, 257, 511, 512, 513,
+			1023, 1024, 1025, 2047, 2048, 2049, 4095, 4096, 4097} {
+			exec(c, newGen(c).heavy(r, "int", n, rep == 0 && (n <= 65 || n == 1024)))
+			exec(c, newGen(c).heavy(r, pick(r), n, false))
+			exec(c, newGen(c).heavy(r, oracleElem(), n, false))
+		}
+	}
+	// (b) dense coverage of 13..200 nodes: every size several times
+	for i := 0; i < 560*mult; i++ {
+		n := 13 + i%188
+		exec(c, newGen(c).heavy(r, pick(r), n, i%16 == 0))
+	}
+	for i := 0; i < 376*mult; i++ {
+		n := 13 + i%188
+		exec(c, newGen(c).heavy(r, oracleElem(), n, false))
+	}
+	// (c) sizes spread log-uniformly over 16..4096
+	for i := 0; i < 40*mult; i++ {
+		n := 16 << uint(r.Intn(8))
+		n += r.Intn(n)
+		e := "int"
+		if i%2 == 1 {
+			e = oracleElem()
+		}
+		exec(c, newGen(c).heavy(r, e, n, false))
 	}
 }
 
